@@ -234,6 +234,9 @@ pub fn read_file_with_encoding(path: &PathBuf, encoding: &String) -> (r: Option<
     ensures text_view(r) == sp_disk_text(*path),
 { unimplemented!() }
 impl RwLockWriteGuard<EmmyLuaAnalysis> {
+    /// rule `write-guard-deref`: `Deref::deref` of the guard — the analysis behind the lock, read-only
+    #[verifier::external_body]
+    pub fn vx_deref(&self) -> &EmmyLuaAnalysis { unimplemented!() }
     /// THE call the property is about: the analysis gets `text` for `uri` (vfs set_file_content + re-index). Logged in call order on the main
     /// loop, as a deferred effect inside a spawned task. (`text == None` empties the document but keeps its file id: no handler under proof
     /// does that, the shim says nothing about it.)
